@@ -28,7 +28,16 @@ def variants(data, tree, blocks, parent, outs):
     nb = [blocks[old] for old in perm]
     npar = tuple(-1 if parent[old] == -1 else inv[parent[old]] for old in perm)
     out.append(("reversed-build", T.build_tree(data, nb, npar, outs)))
-    # built by moving points: everything first in one clone per block via add after creation
+    # reached by edits: an extra copy of the last data point is added to a clone and taken out again (the elementary Gibbs move)
+    from phyclone.data.base import DataPoint
+
+    if tree.nodes:
+        t3 = tree.copy()
+        extra = DataPoint(99, data[-1].value * 0.5 + 0.25, outlier_prob=data[-1].outlier_prob, outlier_prob_not=data[-1].outlier_prob_not)
+        node = t3.nodes[-1]
+        t3.add_data_point_to_node(extra, node)
+        t3.remove_data_point_from_node(extra, node)
+        out.append(("add-then-remove", t3))
     return out
 
 
